@@ -19,6 +19,29 @@ from . import terms as T
 HOOKS = {"__getattr__", "__getattribute__", "__setattr__", "__delattr__", "__get__", "__set__", "__init_subclass__",
          "__instancecheck__", "__subclasscheck__", "__prepare__"}
 
+# dunder methods each class defines on the specified tree; a *new* dunder of the sensitive kind changes how instances compare,
+# hash, iterate, test for truth, pickle or are constructed without touching any specified function
+EXPECTED_DUNDERS = {
+    "puan.Bounds": {"__init__", "__hash__", "__iter__", "__eq__"}, "puan.variable": {"__init__", "__hash__", "__lt__", "__eq__"},
+    "puan.logic.plog.AtLeast": {"__init__", "__repr__", "__lt__", "__eq__", "__hash__"},
+    "puan.logic.plog.AtMost": {"__init__"}, "puan.logic.plog.All": {"__init__"}, "puan.logic.plog.Any": {"__init__"},
+    "puan.logic.plog.Imply": {"__init__"}, "puan.logic.plog.Xor": {"__init__"}, "puan.logic.plog.XNor": {"__init__"},
+    "puan.logic.plog.Not": {"__new__"}, "puan.modules.configurator.Any": {"__init__"}, "puan.modules.configurator.Xor": {"__init__"},
+    "puan.modules.configurator.StingyConfigurator": {"__init__"},
+    "puan.ndarray.variable_ndarray": {"__new__", "__array_finalize__"}, "puan.ndarray.ge_polyhedron": {"__new__"},
+    "puan.ndarray.ge_polyhedron_config": {"__new__"},
+}
+CLASS_DECORATORS = {"puan.Bounds": ["dataclasses.dataclass"], "puan.variable": ["dataclasses.dataclass"]}
+BUILTIN_NAMES = {"sum", "map", "filter", "sorted", "list", "len", "min", "max", "any", "all", "zip", "dict", "set", "tuple", "range",
+                 "enumerate", "isinstance", "issubclass", "hash", "getattr", "hasattr", "setattr", "callable", "type", "str", "int", "float",
+                 "abs", "iter", "next", "reversed", "bool", "frozenset", "super", "id", "round", "print", "object", "property",
+                 "staticmethod", "classmethod", "Exception", "ValueError", "KeyError", "TypeError"}
+EXPECTED_IMPORTS = {"np": "numpy", "numpy": "numpy", "pr": "puan_rspy", "pg": "puan.logic.plog", "pnd": "puan.ndarray", "puan": "puan",
+                    "maz": "maz", "functools": "functools", "operator": "operator", "itertools": "itertools", "math": "math", "sys": "sys",
+                    "pickle": "pickle", "gzip": "gzip", "base64": "base64", "graphlib": "graphlib", "hashlib": "hashlib",
+                    "dataclasses": "dataclasses", "typing": "typing", "Counter": "collections.Counter", "json": "json",
+                    "more_itertools": "more_itertools", "enum": "enum"}
+
 CONSTANTS = {
     "puan.default_min_int": "numpy.iinfo(numpy.int16).min",
     "puan.default_max_int": "numpy.iinfo(numpy.int16).max",
@@ -117,6 +140,52 @@ def obligations(ctx, pid):
                                   f"(attribute access / hasattr / getattr) by functions specified for this property: every instance now has it",
                                   key=f"E0.class-attr:{c.qualname}.{name}"))
     obs.append(Ob("E0.class-attr", "E0.class-attr", f"{len(classes)} classes", "ok", f"{nca} class-level attributes checked against the names the specified functions read"))
+    # ---- new sensitive dunder methods, class keywords (metaclass=...), class decorators
+    nd = 0
+    for cq in sorted(classes | {c.qualname for q in classes for c in P.subclasses(P.classes[q])} | {c.qualname for q in classes for c in P.mro(P.classes[q])}):
+        ci = P.classes[cq]
+        nd += 1
+        have = {m for m in ci.methods if m.startswith("__") and m.endswith("__")}
+        extra = sorted(have - EXPECTED_DUNDERS.get(cq, set()) - {"__doc__"})
+        for m in extra:
+            fi = ci.methods[m]
+            obs.append(Ob(f"E0.dunder:{fi.qualname}", "E0.new-dunder", f"{fi.file}:{fi.node.lineno} {fi.qualname}", "violation",
+                          f"{fi.qualname} is a new special method: instances of {ci.name} now compare / hash / iterate / test for truth / "
+                          f"pickle / get constructed differently although no specified function changed", key=f"E0.dunder:{fi.qualname}"))
+        if ci.node.keywords:
+            kws = [k.arg for k in ci.node.keywords]
+            obs.append(Ob(f"E0.class-kw:{cq}", "E0.hierarchy", f"{ci.module.relpath}:{ci.node.lineno} {cq}", "violation",
+                          f"class {cq} is declared with keywords {kws} (metaclass / __init_subclass__ arguments): class creation is customised",
+                          key=f"E0.class-kw:{cq}"))
+        decs = [ast.unparse(d) for d in ci.node.decorator_list]
+        if decs != CLASS_DECORATORS.get(cq, []):
+            obs.append(Ob(f"E0.class-deco:{cq}", "E0.hierarchy", f"{ci.module.relpath}:{ci.node.lineno} {cq}", "violation",
+                          f"class decorators of {cq} are {decs}, specified {CLASS_DECORATORS.get(cq, [])}", key=f"E0.class-deco:{cq}:{','.join(decs)}"))
+    obs.append(Ob("E0.new-dunder", "E0.new-dunder", f"{nd} classes", "ok", "special methods, class keywords and class decorators agree with the specification (violations listed separately)"))
+    # ---- shadowing of builtins / standard aliases at module or class level
+    sh = []
+    scope_modules = {P.functions[q].module.name for q in scope_funcs if q in P.functions}
+    for m in P.modules.values():
+        if m.name not in scope_modules:
+            continue
+        for name in list(m.functions) + list(m.classes) + list(m.assigns):
+            if name in BUILTIN_NAMES:
+                sh.append((m.relpath, f"{m.name}.{name} shadows the builtin `{name}` for every function of the module"))
+        for alias, target in m.imports.items():
+            if alias in BUILTIN_NAMES:
+                sh.append((m.relpath, f"import binds `{alias}` (= {target}) over the builtin in {m.name}"))
+            if alias in EXPECTED_IMPORTS and target != EXPECTED_IMPORTS[alias]:
+                sh.append((m.relpath, f"`{alias}` is bound to `{target}` in {m.name}; the analysis (and the references) read it as `{EXPECTED_IMPORTS[alias]}`"))
+    for ci in P.classes.values():
+        if ci.module.name not in scope_modules:
+            continue
+        for name in ci.class_attrs:
+            if name in BUILTIN_NAMES:
+                sh.append((ci.module.relpath, f"class attribute {ci.qualname}.{name} shadows a builtin name"))
+    for rel, text in sh:
+        obs.append(Ob(f"E0.shadow:{text[:60]}", "E0.shadowing", rel, "violation", text, key=f"E0.shadow:{text[:80]}"))
+    if not sh:
+        obs.append(Ob("E0.shadowing", "E0.shadowing", f"{len(P.modules)} modules", "ok", "no module-level binding shadows a builtin or re-targets a standard alias"))
     # ---- attribute hooks
     bad = []
     for cq in sorted(classes):
@@ -158,6 +227,21 @@ def obligations(ctx, pid):
                 for tg in st.targets:
                     if isinstance(tg, ast.Name) and (m.name + "." + tg.id) in spec_all:
                         patches.append((m.relpath, st.lineno, f"rebinding of specified function {m.name}.{tg.id}"))
+    for q, fi in P.functions.items():
+        for n in ast.walk(fi.node):
+            tgt = None
+            if isinstance(n, ast.Attribute) and isinstance(n.ctx, (ast.Store, ast.Del)):
+                base = dotted(n.value)
+                qb = P.qualify(fi.module, base) if base and base.split(".")[0] not in fi.params else None
+                if qb in P.classes and not (fi.cls is not None and base in ("cls",)):
+                    tgt = f"{qb}.{n.attr} assigned inside {q}"
+            elif isinstance(n, ast.Call) and dotted(n.func) in ("setattr", "delattr") and n.args:
+                base = dotted(n.args[0])
+                qb = P.qualify(fi.module, base) if base and base.split(".")[0] not in fi.params else None
+                if qb in P.classes:
+                    tgt = f"setattr({qb}, ...) inside {q}"
+            if tgt:
+                patches.append((fi.module.relpath, n.lineno, tgt))
     for ci in P.classes.values():
         names = [n for n in ci.node.body]
         defined = {}
